@@ -1,6 +1,7 @@
 package main
 
 import (
+	"sync/atomic"
 	"context"
 	"fmt"
 	"time"
@@ -10,6 +11,7 @@ import (
 	. "verifharness/kobj"
 	"verifharness/sched"
 
+	"github.com/boz/kcache/filter"
 	"github.com/boz/kcache/join"
 	tdaemonset "github.com/boz/kcache/types/daemonset"
 	tdeployment "github.com/boz/kcache/types/deployment"
@@ -31,11 +33,37 @@ type joinDef struct {
 	srcKind, dstKind int
 	tag              int // model constructor: 12 service, 13 rc, 14 workload, 15 ingress->services
 	mk               func(ctx context.Context, src, dst *tctl) (*tctl, error)
+	// the same join through its ...With constructor, the filter function
+	// wrapped by gated() (see joinHook)
+	mkWith func(ctx context.Context, src, dst *tctl) (*tctl, error)
+}
+
+// joinHook, when set, runs inside the FIRST call a join makes to its filter
+// function (after the function has computed its result from the sources it
+// was given): a scenario uses it to change the source and let virtual time pass
+// at exactly that point, as a slow filter computation would.
+var joinHook func()
+
+func gated[T any](base func(...T) filter.ComparableFilter) func(...T) filter.ComparableFilter {
+	var first atomic.Bool
+	return func(xs ...T) filter.ComparableFilter {
+		f := base(xs...)
+		if h := joinHook; h != nil && first.CompareAndSwap(false, true) {
+			h()
+		}
+		return f
+	}
 }
 
 var joinDefs = []joinDef{
 	{"ServicePods", KService, KPod, 12, func(ctx context.Context, s, d *tctl) (*tctl, error) {
 		c, err := join.ServicePods(ctx, s.raw.(tservice.Controller), d.raw.(tpod.Controller))
+		if err != nil {
+			return nil, err
+		}
+		return wrap_pod(c), nil
+	}, func(ctx context.Context, s, d *tctl) (*tctl, error) {
+		c, err := join.ServicePodsWith(ctx, s.raw.(tservice.Controller), d.raw.(tpod.Controller), gated(tservice.PodsFilter))
 		if err != nil {
 			return nil, err
 		}
@@ -47,9 +75,21 @@ var joinDefs = []joinDef{
 			return nil, err
 		}
 		return wrap_pod(c), nil
+	}, func(ctx context.Context, s, d *tctl) (*tctl, error) {
+		c, err := join.RCPodsWith(ctx, s.raw.(treplicationcontroller.Controller), d.raw.(tpod.Controller), gated(treplicationcontroller.PodsFilter))
+		if err != nil {
+			return nil, err
+		}
+		return wrap_pod(c), nil
 	}},
 	{"RSPods", KRS, KPod, 14, func(ctx context.Context, s, d *tctl) (*tctl, error) {
 		c, err := join.RSPods(ctx, s.raw.(treplicaset.Controller), d.raw.(tpod.Controller))
+		if err != nil {
+			return nil, err
+		}
+		return wrap_pod(c), nil
+	}, func(ctx context.Context, s, d *tctl) (*tctl, error) {
+		c, err := join.RSPodsWith(ctx, s.raw.(treplicaset.Controller), d.raw.(tpod.Controller), gated(treplicaset.PodsFilter))
 		if err != nil {
 			return nil, err
 		}
@@ -61,9 +101,21 @@ var joinDefs = []joinDef{
 			return nil, err
 		}
 		return wrap_pod(c), nil
+	}, func(ctx context.Context, s, d *tctl) (*tctl, error) {
+		c, err := join.DeploymentPodsWith(ctx, s.raw.(tdeployment.Controller), d.raw.(tpod.Controller), gated(tdeployment.PodsFilter))
+		if err != nil {
+			return nil, err
+		}
+		return wrap_pod(c), nil
 	}},
 	{"StatefulSetPods", KStatefulSet, KPod, 14, func(ctx context.Context, s, d *tctl) (*tctl, error) {
 		c, err := join.StatefulSetPods(ctx, s.raw.(tstatefulset.Controller), d.raw.(tpod.Controller))
+		if err != nil {
+			return nil, err
+		}
+		return wrap_pod(c), nil
+	}, func(ctx context.Context, s, d *tctl) (*tctl, error) {
+		c, err := join.StatefulSetPodsWith(ctx, s.raw.(tstatefulset.Controller), d.raw.(tpod.Controller), gated(tstatefulset.PodsFilter))
 		if err != nil {
 			return nil, err
 		}
@@ -75,6 +127,12 @@ var joinDefs = []joinDef{
 			return nil, err
 		}
 		return wrap_pod(c), nil
+	}, func(ctx context.Context, s, d *tctl) (*tctl, error) {
+		c, err := join.JobPodsWith(ctx, s.raw.(tjob.Controller), d.raw.(tpod.Controller), gated(tjob.PodsFilter))
+		if err != nil {
+			return nil, err
+		}
+		return wrap_pod(c), nil
 	}},
 	{"DaemonSetPods", KDaemonSet, KPod, 14, func(ctx context.Context, s, d *tctl) (*tctl, error) {
 		c, err := join.DaemonSetPods(ctx, s.raw.(tdaemonset.Controller), d.raw.(tpod.Controller))
@@ -82,9 +140,21 @@ var joinDefs = []joinDef{
 			return nil, err
 		}
 		return wrap_pod(c), nil
+	}, func(ctx context.Context, s, d *tctl) (*tctl, error) {
+		c, err := join.DaemonSetPodsWith(ctx, s.raw.(tdaemonset.Controller), d.raw.(tpod.Controller), gated(tdaemonset.PodsFilter))
+		if err != nil {
+			return nil, err
+		}
+		return wrap_pod(c), nil
 	}},
 	{"IngressServices", KIngress, KService, 15, func(ctx context.Context, s, d *tctl) (*tctl, error) {
 		c, err := join.IngressServices(ctx, s.raw.(tingress.Controller), d.raw.(tservice.Controller))
+		if err != nil {
+			return nil, err
+		}
+		return wrap_service(c), nil
+	}, func(ctx context.Context, s, d *tctl) (*tctl, error) {
+		c, err := join.IngressServicesWith(ctx, s.raw.(tingress.Controller), d.raw.(tservice.Controller), gated(tingress.ServicesFilter))
 		if err != nil {
 			return nil, err
 		}
@@ -200,7 +270,24 @@ func runC09(c *Ctx) {
 					// after construction (odd cycles) changes nothing
 					jctx, jcancel := context.WithCancel(ctx)
 					defer jcancel()
-					j, err := jd.mk(jctx, src, dst)
+					mk := jd.mk
+					if cycle == 2 {
+						// the join computes its first filter slowly (50ms) while the source
+						// changes: whatever it installs from the stale sources must not be
+						// what it ends up with
+						mk = jd.mkWith
+						joinHook = func() {
+							srcSrv.Put(proto(jd.srcKind, 2, 2, 2))
+							srcSrv.Put(proto(jd.srcKind, 1, 1, 0))
+							time.Sleep(50 * time.Millisecond)
+						}
+					}
+					j, err := mk(jctx, src, dst)
+					joinHookDone := func() { joinHook = nil }
+					defer joinHookDone()
+					if cycle == 2 {
+						time.Sleep(60 * time.Millisecond) // the slow first filter computation
+					}
 					if err != nil {
 						problems = append(problems, "creating the join failed: "+err.Error())
 						return
@@ -483,6 +570,6 @@ func runC09(c *Ctx) {
 		}
 		c.DistinctCase(fmt.Sprint("IngressPods", seed))
 	}
-	c.Rep.Rule = "all eight generated joins and the double join IngressPods over fake API servers for source and destination (typed base controllers, virtual time, perturbation): source histories (sources appear, change selector, disappear) and destination histories (labels and namespaces change) at arbitrary relative timing; three create/use/close cycles of the join over long-lived base controllers (in the second cycle the context given to the constructor is cancelled right after construction: it only carries the logger). At barriers: join cache = destination objects selected by a current source object (ownership predicate written directly; also vs the extracted constructor + accept), ready only after source and destination (slow source list variant; slow destination list variant with the source changing before the destination is ready) and ready also when no source object exists at creation, Close stops everything the join created (goroutine inventory back to baseline each cycle; also when an IngressPods result is closed before it ever became ready) and leaves the bases running and current. Non-trivial = every (join, scenario)."
+	c.Rep.Rule = "all eight generated joins and the double join IngressPods over fake API servers for source and destination (typed base controllers, virtual time, perturbation): source histories (sources appear, change selector, disappear) and destination histories (labels and namespaces change) at arbitrary relative timing; three create/use/close cycles of the join over long-lived base controllers (the third through the ...With constructor with a filter function that is slow on its first call while the source changes) (in the second cycle the context given to the constructor is cancelled right after construction: it only carries the logger). At barriers: join cache = destination objects selected by a current source object (ownership predicate written directly; also vs the extracted constructor + accept), ready only after source and destination (slow source list variant; slow destination list variant with the source changing before the destination is ready) and ready also when no source object exists at creation, Close stops everything the join created (goroutine inventory back to baseline each cycle; also when an IngressPods result is closed before it ever became ready) and leaves the bases running and current. Non-trivial = every (join, scenario)."
 	c.Rep.Stats["runs"] = runs
 }
